@@ -26,7 +26,10 @@ def config(tier):
     return {
         "hashseeds": [0, 1] if q else [0, 1, 2, 3],
         "families": [],
-        "mc": [],
+        "mc": [{"module": "MCExprReader", "cfg": "MCExprReader", "workers": 4, "timeout": 900},
+               # the reader as it was before the reserved-identifier repair: the model reproduces the capture defects
+               {"module": "MCExprReader", "cfg": "MCExprReader", "workers": 2, "timeout": 600, "env": {"MC_OLD_READER": "1"}, "expect": "violation"},
+               {"module": "MCVerilogIO", "cfg": "MCVerilogIO", "workers": 4, "timeout": 900}],
         "shards": 8 if q else 16,
         "negctl": 12,
     }
@@ -106,11 +109,17 @@ def run_case(case, ctx):
     except Exception as e:
         exc = type(e).__name__
     sp = vlog.to_spec(p)
+    import re as _re
+
+    order = [i + 1 for i in p.get("_text_order", [])]
+    if case["op"] == "capture":
+        order = [1, 2] if case["order"] == 0 else [2, 1]
+    idents = sorted(set(_re.findall(r"\\\S+|[A-Za-z_][A-Za-z_0-9$]*", text)))       # the reader's own notion of "every identifier"
     nt = any(it["k"] == "bb" or (it["k"] == "assign" and it["rhs"][0] not in ("id", "c")) for it in p["items"])
     users = set(p["inputs"]) | set(p["outputs"]) | set(p["wires"])
     tags = ["net_named_like_inner_gate"] if users & inner_gate_names(p) else []
     return {"kind": "parse", "dialect": "verilog", "p": sp, "r": proj(c) if c is not None else {}, "exc": exc, "expect_reject": case["op"] == "reject",
-            "text": text, "nontrivial": nt, "tags": tags}
+            "text": text, "nontrivial": nt, "tags": tags, "order": order, "idents": idents}
 
 
 def inner_gate_names(p):
